@@ -68,7 +68,7 @@ func (g *HistGen) c12Op(nextEnt *int) []Op {
 	}
 	e := g.ent(Pick(r, g.Ents).ID)
 	kinds := []string{"edit-subject", "edit-subject", "edit-exts", "edit-issuer", "edit-profile-ref", "add-entity", "remove-entity",
-		"del-art", "trunc-art", "strip-key", "replace-art", "strip-hash", "touch", "tz"}
+		"del-art", "trunc-art", "strip-key", "replace-art", "strip-hash", "touch", "tz", "unusable-key"}
 	if len(g.Profs) > 0 {
 		kinds = append(kinds, "edit-profile")
 	}
@@ -217,6 +217,13 @@ func (g *HistGen) c12Op(nextEnt *int) []Op {
 		delete(g.Csr, e.ID)
 	case "touch":
 		out = append(out, Op{K: k, Ent: e.ID})
+	case "unusable-key":
+		// the key block replaced by one whose PKCS#8 wrapper is fine and whose content is not a key
+		// gopki can use (unknown curve, scalar out of range, other version): key material is missing
+		if g.Csr[e.ID] {
+			return nil
+		}
+		out = append(out, Op{K: "corrupt", Path: e.PemPath(), Arg: "unparsable-key", Label: k})
 	case "tz":
 		// the next run takes place on a machine in another zone: configured dates are local midnights,
 		// so a clean run there gives other instants, and the incremental one has to follow
